@@ -6,18 +6,33 @@
 //!     `#[cfg(kani)] #[path = "kani_loader_c17.rs"] mod kani_loader_c17;` is appended to
 //!     `a2lfile/src/loader.rs` (child module => may call the private `decode_raw_bytes`);
 //!   * `load()` itself opens a file, which CBMC cannot model.  The runner therefore cuts the
-//!     statements of `load` from `let utf8data = decode_raw_bytes(&filedata);` to the final
-//!     `Ok(data)` out of the scratch copy's loader.rs VERBATIM and wraps them as
-//!         #[cfg(kani)] fn kani_load_tail(filedata: &[u8]) -> Result<String, A2lError> { ... }
-//!     so the BOM handling that is checked is the source text of `load`, not a re-implementation.
+//!     statements of `load` that follow `let filedata = read_data(..)?;` out of the scratch copy's
+//!     loader.rs VERBATIM and wraps them as
+//!         #[cfg(kani)] fn kani_load_tail(filedata: &[u8]) -> Result<String, A2lError> {
+//!             let utf8data = decode_raw_bytes(&filedata);      // <- verbatim line of `load`
+//!             kani_bom_strip(utf8data)
+//!         }
+//!         #[cfg(kani)] fn kani_bom_strip(utf8data: String) -> Result<String, A2lError> {
+//!             let data = if utf8data.len() > 2 && ... ;       // <- verbatim rest of `load`
+//!             Ok(data)
+//!         }
+//!     so the BOM handling that is checked is the source text of `load`, not a re-implementation
+//!     (a mutant of `load` changes what these harnesses execute).
 //!
 //! Everything here is BOUNDED (bounds are stated per harness); results are evidence of level
 //! "bounded model check", never proofs of C17.
 //!
 //! Reference encoders below are written with plain integer arithmetic (no `char::encode_*`) so the
 //! oracle shares no code with the decoder under test.
+//!
+//! Measured (Kani 0.68 / CBMC 6.11, see /verif/contracts/notes/U-LD.md): every `String::push` /
+//! `from_utf16` / `collect` on symbolic data is expensive, and a symbolic *length* makes CBMC
+//! unwind every loop to the bound on every path (the first version of this file, with symbolic
+//! `n` and symbolic SET indices, did not finish one encoding in 15 min).  Therefore all lengths
+//! are concrete per harness (or enumerated by a concrete in-harness loop) and only the *content*
+//! is symbolic.
 
-use super::{decode_raw_bytes, kani_load_tail};
+use super::{decode_raw_bytes, kani_bom_strip, kani_load_tail};
 
 /// upper bound for any encoded text used below: UTF-32 BOM + 3 scalars = 16 bytes
 const MAXB: usize = 16;
@@ -121,20 +136,9 @@ fn same_bytes(s: &str, exp: &Buf) -> bool {
     true
 }
 
-/// (b) round trip for one encoding.
-/// Text s = c0 c1 c2 truncated to n in 1..=3 scalars, c0 any ASCII 0x01..=0x7F (symbolic),
-/// c1, c2 in SET by symbolic index.  Checks  load_tail(E(s)) == UTF-8(s)  where load_tail is the
-/// verbatim tail of `load` (decode_raw_bytes + BOM strip).
-fn roundtrip(width: u8, be: bool, bom: bool) {
-    let n: usize = kani::any();
-    kani::assume(n >= 1 && n <= 3);
-    let c0: u8 = kani::any();
-    kani::assume(c0 >= 1 && c0 <= 0x7F);
-    let i1: usize = kani::any();
-    let i2: usize = kani::any();
-    kani::assume(i1 < 4 && i2 < 4);
-    let cs: [u32; 3] = [c0 as u32, SET[i1], SET[i2]];
-
+/// Encode `cs[..n]` with encoding (width, be, bom), run the verbatim tail of `load` on it and
+/// require the UTF-8 form of `cs[..n]` as result.  `n` is concrete at every call site.
+fn roundtrip_text(width: u8, be: bool, bom: bool, n: usize, cs: [u32; 3]) -> usize {
     let mut enc = Buf::new();
     let mut exp = Buf::new();
     if bom {
@@ -148,7 +152,6 @@ fn roundtrip(width: u8, be: bool, bom: bool) {
         }
         k += 1;
     }
-
     match kani_load_tail(enc.bytes()) {
         Ok(s) => {
             assert!(same_bytes(&s, &exp), "C17: decoded text differs from the encoded text");
@@ -157,74 +160,127 @@ fn roundtrip(width: u8, be: bool, bom: bool) {
             assert!(false, "C17: load tail returned an error");
         }
     }
+    enc.n
+}
 
-    // every feasible length residue mod 4 is really exercised (anti-vacuity)
-    match width {
-        1 => {
-            kani::cover!(enc.n % 4 == 0);
-            kani::cover!(enc.n % 4 == 1);
-            kani::cover!(enc.n % 4 == 2);
-            kani::cover!(enc.n % 4 == 3);
+/// (b) all 21 texts  c0 | c0 c1 | c0 c1 c2  with c1, c2 in SET (every index pair enumerated by a
+/// concrete loop, so each decode runs with concrete lengths) and c0 a SYMBOLIC ASCII character
+/// 0x01..=0x7F.  Returns a bit set of the length residues mod 4 that occurred.
+fn roundtrip_set(width: u8, be: bool, bom: bool) -> u8 {
+    let c0: u8 = kani::any();
+    kani::assume(c0 >= 1 && c0 <= 0x7F);
+    let c0 = c0 as u32;
+    let mut residues: u8 = 0;
+    let l = roundtrip_text(width, be, bom, 1, [c0, 0, 0]);
+    residues |= 1 << (l % 4);
+    let mut i1 = 0;
+    while i1 < 4 {
+        let l = roundtrip_text(width, be, bom, 2, [c0, SET[i1], 0]);
+        residues |= 1 << (l % 4);
+        let mut i2 = 0;
+        while i2 < 4 {
+            let l = roundtrip_text(width, be, bom, 3, [c0, SET[i1], SET[i2]]);
+            residues |= 1 << (l % 4);
+            i2 += 1;
         }
-        2 => {
-            kani::cover!(enc.n % 4 == 0);
-            kani::cover!(enc.n % 4 == 2);
-        }
-        _ => {
-            kani::cover!(enc.n % 4 == 0);
-        }
+        i1 += 1;
     }
-    kani::cover!(n == 3 && i1 == 3 && i2 == 3);
+    residues
 }
 
 macro_rules! c17_roundtrip {
-    ($name:ident, $unwind:literal, $width:expr, $be:expr, $bom:expr, $doc:literal) => {
+    ($name:ident, $width:expr, $be:expr, $bom:expr, $residues:expr, $doc:literal) => {
         #[doc = $doc]
+        ///
+        /// Checks `load_tail(E(s)) == s` (load_tail = verbatim `decode_raw_bytes` + BOM strip of
+        /// `load`) for the 21 texts of 1..=3 scalars whose first scalar is any ASCII 0x01..=0x7F
+        /// (symbolic) and whose other scalars range over {U+0061, U+00E9, U+20AC, U+1F600}
+        /// (all index combinations enumerated); asserts that every length residue mod 4 the
+        /// encoding can produce occurred.  BOUNDED (texts of at most 3 scalars from that set).
         #[kani::proof]
-        #[kani::unwind($unwind)]
+        #[kani::unwind(18)]
         fn $name() {
-            roundtrip($width, $be, $bom);
+            let residues = roundtrip_set($width, $be, $bom);
+            assert!(residues == $residues, "C17 harness: length residues mod 4 not all covered");
         }
     };
 }
 
-// BOUND for all ten: texts of 1..=3 scalar values, first scalar any ASCII 0x01..=0x7F, the others
-// from {U+0061, U+00E9, U+20AC, U+1F600}; all length residues mod 4 that the encoding can produce
-// are covered (kani::cover).  BOUNDED, not complete.
-c17_roundtrip!(c17_rt_utf8, 18, 1, false, false,
-    "C17(b) UTF-8 without BOM: load_tail(E(s)) == s. Bound: 1..=3 scalars (1..=9 bytes). BOUNDED.");
-c17_roundtrip!(c17_rt_utf8_bom, 18, 1, false, true,
-    "C17(b) UTF-8 with BOM: load_tail(E(s)) == s. Bound: 1..=3 scalars (4..=12 bytes). BOUNDED.");
-c17_roundtrip!(c17_rt_utf16le, 18, 2, false, false,
-    "C17(b) UTF-16LE without BOM. Bound: 1..=3 scalars (2..=10 bytes). BOUNDED.");
-c17_roundtrip!(c17_rt_utf16le_bom, 18, 2, false, true,
-    "C17(b) UTF-16LE with BOM. Bound: 1..=3 scalars (4..=12 bytes). BOUNDED.");
-c17_roundtrip!(c17_rt_utf16be, 18, 2, true, false,
-    "C17(b) UTF-16BE without BOM. Bound: 1..=3 scalars (2..=10 bytes). BOUNDED.");
-c17_roundtrip!(c17_rt_utf16be_bom, 18, 2, true, true,
-    "C17(b) UTF-16BE with BOM. Bound: 1..=3 scalars (4..=12 bytes). BOUNDED.");
-c17_roundtrip!(c17_rt_utf32le, 18, 4, false, false,
-    "C17(b) UTF-32LE without BOM. Bound: 1..=3 scalars (4..=12 bytes). BOUNDED.");
-c17_roundtrip!(c17_rt_utf32le_bom, 18, 4, false, true,
-    "C17(b) UTF-32LE with BOM. Bound: 1..=3 scalars (8..=16 bytes). BOUNDED.");
-c17_roundtrip!(c17_rt_utf32be, 18, 4, true, false,
-    "C17(b) UTF-32BE without BOM. Bound: 1..=3 scalars (4..=12 bytes). BOUNDED.");
-c17_roundtrip!(c17_rt_utf32be_bom, 18, 4, true, true,
-    "C17(b) UTF-32BE with BOM. Bound: 1..=3 scalars (8..=16 bytes). BOUNDED.");
+c17_roundtrip!(c17_rt_utf8, 1, false, false, 0b1111, "C17(b) UTF-8 without BOM, 1..=9 bytes.");
+c17_roundtrip!(c17_rt_utf8_bom, 1, false, true, 0b1111, "C17(b) UTF-8 with BOM, 4..=12 bytes.");
+c17_roundtrip!(c17_rt_utf16le, 2, false, false, 0b0101, "C17(b) UTF-16LE without BOM, 2..=10 bytes.");
+c17_roundtrip!(c17_rt_utf16le_bom, 2, false, true, 0b0101, "C17(b) UTF-16LE with BOM, 4..=12 bytes.");
+c17_roundtrip!(c17_rt_utf16be, 2, true, false, 0b0101, "C17(b) UTF-16BE without BOM, 2..=10 bytes.");
+c17_roundtrip!(c17_rt_utf16be_bom, 2, true, true, 0b0101, "C17(b) UTF-16BE with BOM, 4..=12 bytes.");
+c17_roundtrip!(c17_rt_utf32le, 4, false, false, 0b0001, "C17(b) UTF-32LE without BOM, 4..=12 bytes.");
+c17_roundtrip!(c17_rt_utf32le_bom, 4, false, true, 0b0001, "C17(b) UTF-32LE with BOM, 8..=16 bytes.");
+c17_roundtrip!(c17_rt_utf32be, 4, true, false, 0b0001, "C17(b) UTF-32BE without BOM, 4..=12 bytes.");
+c17_roundtrip!(c17_rt_utf32be_bom, 4, true, true, 0b0001, "C17(b) UTF-32BE with BOM, 8..=16 bytes.");
 
-/// (a) totality for one concrete length L: every byte string of exactly L bytes goes through
-/// `decode_raw_bytes` and the BOM-stripping tail of `load` without panic, arithmetic overflow or
-/// out-of-bounds access (Kani's built-in checks), and the tail returns `Ok`.
+/// a symbolic scalar value whose UTF-8 form has exactly `class` bytes (class 1 excludes U+0000;
+/// class 3 excludes the surrogates D800..DFFF)
+fn any_scalar_of_class(class: u8) -> u32 {
+    let c: u32 = kani::any();
+    match class {
+        1 => kani::assume(c >= 1 && c <= 0x7F),
+        2 => kani::assume(c >= 0x80 && c <= 0x7FF),
+        3 => kani::assume(c >= 0x800 && c <= 0xFFFF && !(c >= 0xD800 && c <= 0xDFFF)),
+        _ => kani::assume(c >= 0x1_0000 && c <= 0x10_FFFF),
+    }
+    c
+}
+
+/// (b+) stronger variant for one concrete *shape*: text c0 c1 with c0 any ASCII non-NUL and c1 ANY
+/// scalar value of the given UTF-8 length class (fully symbolic, not only the SET member).
+fn roundtrip_class2(width: u8, be: bool, bom: bool, class1: u8) {
+    let c0 = any_scalar_of_class(1);
+    let c1 = any_scalar_of_class(class1);
+    roundtrip_text(width, be, bom, 2, [c0, c1, 0]);
+}
+
+macro_rules! c17_roundtrip_any {
+    ($name:ident, $width:expr, $be:expr, $bom:expr, $doc:literal) => {
+        #[doc = $doc]
+        ///
+        /// (b+) `load_tail(E(c0 c1)) == c0 c1` for c0 ANY ASCII 0x01..=0x7F and c1 ANY Unicode
+        /// scalar value except U+0000 (four sub-cases by UTF-8 length class, content fully
+        /// symbolic).  BOUNDED (texts of exactly 2 scalars).
+        #[kani::proof]
+        #[kani::unwind(18)]
+        fn $name() {
+            roundtrip_class2($width, $be, $bom, 1);
+            roundtrip_class2($width, $be, $bom, 2);
+            roundtrip_class2($width, $be, $bom, 3);
+            roundtrip_class2($width, $be, $bom, 4);
+        }
+    };
+}
+
+c17_roundtrip_any!(c17_rtany_utf8, 1, false, false, "C17(b+) UTF-8 without BOM.");
+c17_roundtrip_any!(c17_rtany_utf8_bom, 1, false, true, "C17(b+) UTF-8 with BOM.");
+c17_roundtrip_any!(c17_rtany_utf16le, 2, false, false, "C17(b+) UTF-16LE without BOM.");
+c17_roundtrip_any!(c17_rtany_utf16le_bom, 2, false, true, "C17(b+) UTF-16LE with BOM.");
+c17_roundtrip_any!(c17_rtany_utf16be, 2, true, false, "C17(b+) UTF-16BE without BOM.");
+c17_roundtrip_any!(c17_rtany_utf16be_bom, 2, true, true, "C17(b+) UTF-16BE with BOM.");
+c17_roundtrip_any!(c17_rtany_utf32le, 4, false, false, "C17(b+) UTF-32LE without BOM.");
+c17_roundtrip_any!(c17_rtany_utf32le_bom, 4, false, true, "C17(b+) UTF-32LE with BOM.");
+c17_roundtrip_any!(c17_rtany_utf32be, 4, true, false, "C17(b+) UTF-32BE without BOM.");
+c17_roundtrip_any!(c17_rtany_utf32be_bom, 4, true, true, "C17(b+) UTF-32BE with BOM.");
+
+/// (a) totality of `decode_raw_bytes` for one concrete length L: every byte string of exactly L
+/// bytes is decoded without panic, arithmetic overflow or out-of-bounds access (Kani's built-in
+/// checks); the result has between L/4 and 2*L bytes.
 fn totality<const L: usize>() {
     let data: [u8; L] = kani::any();
-    let r = kani_load_tail(&data[..]);
-    assert!(r.is_ok());
+    let s = decode_raw_bytes(&data[..]);
+    assert!(s.len() <= 2 * L);
+    assert!(s.len() >= L / 4);
 }
 
 macro_rules! c17_total {
     ($name:ident, $len:literal, $unwind:literal) => {
-        /// C17(a) totality: ALL byte strings of exactly this length: no panic in decode_raw_bytes +
-        /// BOM strip. Complete for this length only => BOUNDED.
+        /// C17(a) totality of `decode_raw_bytes`: ALL byte strings of exactly this length: no panic.
+        /// Complete for this length only => BOUNDED.
         #[kani::proof]
         #[kani::unwind($unwind)]
         fn $name() {
@@ -247,6 +303,70 @@ c17_total!(c17_total_len_10, 10, 13);
 c17_total!(c17_total_len_11, 11, 14);
 c17_total!(c17_total_len_12, 12, 15);
 
+/// (a') totality and exact effect of the BOM-stripping tail of `load` (verbatim source text) on
+/// every valid UTF-8 string of exactly L bytes: no panic (in particular `&utf8data[3..]` is always
+/// on a char boundary), result is Ok, and equals the input without a leading U+FEFF (EF BB BF).
+/// Together with (a) this gives: no byte string of length <= N makes `load`'s pure part panic.
+fn bomstrip<const L: usize>() {
+    let d: [u8; L] = kani::any();
+    if let Ok(st) = core::str::from_utf8(&d[..]) {
+        let has_bom = L >= 3 && d[0] == 0xEF && d[1] == 0xBB && d[2] == 0xBF;
+        match kani_bom_strip(String::from(st)) {
+            Ok(out) => {
+                let ob = out.as_bytes();
+                let skip = if has_bom { 3 } else { 0 };
+                assert!(ob.len() == L - skip);
+                let mut k = 0;
+                while k < L {
+                    if k + skip < L {
+                        assert!(ob[k] == d[k + skip]);
+                    }
+                    k += 1;
+                }
+            }
+            Err(_) => assert!(false, "C17: BOM strip returned an error"),
+        }
+        kani::cover!(has_bom);
+        kani::cover!(!has_bom);
+    }
+}
+
+macro_rules! c17_bomstrip {
+    ($name:ident, $len:literal, $unwind:literal) => {
+        /// C17(a') BOM strip of `load` on ALL valid UTF-8 strings of exactly this many bytes: no
+        /// panic, strips exactly one leading U+FEFF. Complete for this length only => BOUNDED.
+        #[kani::proof]
+        #[kani::unwind($unwind)]
+        fn $name() {
+            bomstrip::<$len>();
+        }
+    };
+}
+
+c17_bomstrip!(c17_bomstrip_len_03, 3, 6);
+c17_bomstrip!(c17_bomstrip_len_04, 4, 7);
+c17_bomstrip!(c17_bomstrip_len_06, 6, 9);
+
+/// C17(a') BOM strip on all valid UTF-8 strings of 0, 1 and 2 bytes (too short for a BOM): identity,
+/// no panic. BOUNDED.
+#[kani::proof]
+#[kani::unwind(5)]
+fn c17_bomstrip_len_0_2() {
+    let d0: [u8; 0] = [];
+    if let Ok(st) = core::str::from_utf8(&d0[..]) {
+        assert!(kani_bom_strip(String::from(st)).is_ok_and(|s| s.is_empty()));
+    }
+    let d1: [u8; 1] = kani::any();
+    if let Ok(st) = core::str::from_utf8(&d1[..]) {
+        assert!(kani_bom_strip(String::from(st)).is_ok_and(|s| s.len() == 1 && s.as_bytes()[0] == d1[0]));
+    }
+    let d2: [u8; 2] = kani::any();
+    if let Ok(st) = core::str::from_utf8(&d2[..]) {
+        assert!(kani_bom_strip(String::from(st))
+            .is_ok_and(|s| s.len() == 2 && s.as_bytes()[0] == d2[0] && s.as_bytes()[1] == d2[1]));
+    }
+}
+
 /// (c) concrete example from the property text: an ASCII byte followed by a lone 0xFF is not valid
 /// UTF-8 (and triggers no UTF-16/32 detection) => Latin-1 reading "a\u{ff}", no failure.
 /// Bound: this one input. BOUNDED.
@@ -254,9 +374,13 @@ c17_total!(c17_total_len_12, 12, 15);
 #[kani::unwind(6)]
 fn c17_latin1_example() {
     let data: [u8; 2] = [b'a', 0xFF];
-    let s = decode_raw_bytes(&data);
-    let sb = s.as_bytes();
-    assert!(sb.len() == 3 && sb[0] == b'a' && sb[1] == 0xC3 && sb[2] == 0xBF);
+    match kani_load_tail(&data[..]) {
+        Ok(s) => {
+            let sb = s.as_bytes();
+            assert!(sb.len() == 3 && sb[0] == b'a' && sb[1] == 0xC3 && sb[2] == 0xBF);
+        }
+        Err(_) => assert!(false, "C17: load tail returned an error"),
+    }
 }
 
 /// (c) for one concrete length L, all byte strings d with
@@ -277,10 +401,10 @@ fn latin1_fallback<const L: usize>() {
     let s = decode_raw_bytes(&d[..]);
     let sb = s.as_bytes();
     if valid {
-        assert!(sb.len() == L);
+        assert!(sb.len() == L, "C17: valid UTF-8 must be returned unchanged");
         let mut k = 0;
         while k < L {
-            assert!(sb[k] == d[k]);
+            assert!(sb[k] == d[k], "C17: valid UTF-8 must be returned unchanged");
             k += 1;
         }
     } else {
@@ -290,16 +414,19 @@ fn latin1_fallback<const L: usize>() {
         while k < L {
             let b = d[k];
             if b < 0x80 {
-                assert!(pos < sb.len() && sb[pos] == b);
+                assert!(pos < sb.len() && sb[pos] == b, "C17: invalid UTF-8 must be read as Latin-1");
                 pos += 1;
             } else {
-                assert!(pos + 1 < sb.len());
-                assert!(sb[pos] == (0xC0 | (b >> 6)) && sb[pos + 1] == (0x80 | (b & 0x3F)));
+                assert!(pos + 1 < sb.len(), "C17: invalid UTF-8 must be read as Latin-1");
+                assert!(
+                    sb[pos] == (0xC0 | (b >> 6)) && sb[pos + 1] == (0x80 | (b & 0x3F)),
+                    "C17: invalid UTF-8 must be read as Latin-1"
+                );
                 pos += 2;
             }
             k += 1;
         }
-        assert!(pos == sb.len());
+        assert!(pos == sb.len(), "C17: invalid UTF-8 must be read as Latin-1");
     }
     kani::cover!(valid);
     kani::cover!(!valid);
